@@ -12,6 +12,7 @@ Verdict(c) ==
   ELSE IF c.missing THEN "record_missing"
   ELSE IF \E k \in {1, 2, 3, 4, 5, 6, 7, 8, 9, 12} : c.ocols[k] # c.icols[k] THEN "other_column_altered"
   ELSE IF c.oopt # c.iopt THEN "optional_fields_altered"
+  ELSE IF c.icgpos # 0 /\ c.ocgpos # c.icgpos THEN "cigar_field_moved_among_the_optional_fields"      \* rewritten in place
   ELSE IF c.long THEN (IF c.ocols = c.icols /\ c.ocg = c.icg THEN "ok" ELSE "long_alignment_not_passed_through")
   ELSE LET r == RunWalk(c.read, Ref(c), c.ocg) IN
        IF r[3] # 0 THEN (IF c.ocg[r[3]][2] = "=" THEN "match_column_pairs_unequal_bases"
